@@ -8,6 +8,9 @@ Tie: T — window shifts (AST of ValidSequenceNumber), timeout and accepted code
      Tenth round: `reuse` lines (second use of the request message of a registration; Props/C08Reuse.lean) and overlapping
      cancellations (TestC08Coop: the real observation.Handler under the cooperative mutex overlay of the C14 check, all
      interleavings of the critical sections of `par cancel … & cancel …` steps, each schedule judged by the reference monitor).
+     Eleventh round: burst histories (`burst_cases`: 64 … 257 observations outstanding at the same time on one connection, taken
+     down one cancellation / failing registration at a time, a notification on the token right after each, one on every token
+     at the end; Props/C08Burst.lean: frame + `burst_cancel_down` for tables of any size).
 """
 import json
 import os
@@ -17,7 +20,7 @@ import subprocess
 
 from . import common
 
-MODULES = ["CoapVerif.Props.C08", "CoapVerif.Props.C08Reuse"]
+MODULES = ["CoapVerif.Props.C08", "CoapVerif.Props.C08Reuse", "CoapVerif.Props.C08Burst"]
 GENERATED = ["Observe.lean"]
 S = 1_000_000_000
 
@@ -226,8 +229,9 @@ def explore(ctx, art):
     nvalid = len(lines)
     cases = []
     owner = [-1] * nvalid
-    for ci in range((3000 if thorough else 400) + len(reuse_cases())):
-        cl, kinds = reuse_cases()[ci] if ci < len(reuse_cases()) else gen_case(rng)
+    fixed = reuse_cases() + burst_cases(ctx.seed, thorough)
+    for ci in range((3000 if thorough else 400) + len(fixed)):
+        cl, kinds = fixed[ci] if ci < len(fixed) else gen_case(rng)
         cases.append((cl, kinds))
         for l in cl:
             lines.append(l)
@@ -303,7 +307,10 @@ def explore(ctx, art):
                        "(+/- 1 ns) and 'never', plus random pairs; histories: random event sequences (register, first response with "
                        "2.05/2.03/other codes and with/without Observe option, notifications increasing / duplicated / reordered / "
                        "jumping by 2^23 -1/0/+1 / wrapping / without Observe, inter-arrival gaps around 128 s, cancel, abort of a "
-                       "pending registration, duplicate-token registration, unknown tokens) on udp and tcp connections. "
+                       "pending registration, duplicate-token registration, unknown tokens) on udp and tcp connections; "
+                       "burst histories: 64/65/80/128 (thorough: 63 ... 257) observations outstanding at once, taken down in order / "
+                       "reversed / shuffled to 0, 1, an eighth, a quarter -1/0/+1 or half of them by Cancel, refused or aborted "
+                       "registrations, each followed by a notification on its token, then one on every token; optional second wave. "
                        "non-trivial history = at least two different kinds of event; distinct by the exact line list.")
     for cl, kinds in cases[:2]:
         ctx.sample({"history": cl, "kinds": sorted(kinds)})
@@ -325,6 +332,101 @@ def reuse_cases():
                         {"request-message-reused-live", "reused-token-is-observed", "fixed"}))
             out.append((["cfg " + cfg, "reg 7", "arrive 7 69 5 1000 A", "reuse 7 0 8" + short, "reuse 7 0 9", "reg 9 con", "arrive 9 69 1 2000 B",
                          "cancel 7 0 done", "arrive 7 69 6 20000000 C", "arrive 9 69 2 20001000 D"], {"request-message-reused-live", "fixed"}))
+    return out
+
+
+# ---------------------------------------------------------------- many simultaneous observations (eleventh round)
+
+BURST_SIZES = {"quick": [64, 65, 80, 128], "thorough": [63, 64, 65, 80, 100, 128, 129, 200, 257]}
+
+
+def burst_case(rng, cfg, n, keep, order, fail_every=0, second_wave=False):
+    """`any number of simultaneous observations, cancel at every point of the stream`: n registrations are outstanding at the
+    same time on one connection (the observation table holds n entries), then the table is taken down to `keep` entries, one
+    cancellation (or failing registration: error answer / ended context) at a time; right after each of them a notification
+    arrives on that token (it must not reach the callback), and at the end one arrives on every token (the observations still
+    registered must get theirs).  `second_wave`: the cancelled tokens are registered again and taken down again."""
+    lines = ["cfg " + cfg]
+    kinds = {"burst", "burst-%d-simultaneous" % n, "burst-keep-%s" % ("0" if keep == 0 else "1" if keep == 1 else "quarter" if abs(keep * 4 - n) <= 4 else "some"),
+             "burst-order-" + order}
+    tagn = [0]
+
+    def tag():
+        tagn[0] += 1
+        return chr(ord("A") + tagn[0] % 26) if (tagn[0] // 26) % 2 == 0 else chr(ord("a") + tagn[0] % 26)
+
+    t = [1000]
+    nid = [0]
+
+    def wave(toks):
+        regs = {}
+        seq = {}
+        for tok in toks:
+            con = cfg.startswith("udp") and rng.random() < 0.15
+            lines.append("reg %d%s" % (tok, " con" if con else ""))
+            regs[tok] = nid[0]
+            nid[0] += 1
+        pending = set()
+        for k, tok in enumerate(toks):
+            if fail_every and k % fail_every == fail_every - 1:
+                pending.add(tok)      # its first answer comes only while the table is being taken down
+                continue
+            t[0] += 1000
+            seq[tok] = rng.choice([5, 5, (1 << 24) - 2, 70000])
+            lines.append("arrive %d 69 %d %d %s" % (tok, seq[tok], t[0], tag()))
+        victims = list(toks)
+        if order == "reverse":
+            victims.reverse()
+        elif order == "shuffled":
+            rng.shuffle(victims)
+        victims = victims[:len(toks) - keep]
+        for tok in victims:
+            if tok in pending:
+                pending.discard(tok)
+                if rng.random() < 0.5:
+                    t[0] += 1000
+                    lines.append("arrive %d %d %s %d %s" % (tok, rng.choice([132, 160, 65]), rng.choice(["-", "3"]), t[0], tag()))
+                    kinds.add("burst-registration-refused")
+                else:
+                    lines.append("regabort %d %d" % (tok, regs[tok]))
+                    kinds.add("burst-registration-aborted")
+                seq[tok] = 9
+            else:
+                lines.append("cancel %d %d%s" % (tok, regs[tok], " done" if rng.random() < 0.2 else ""))
+                t[0] += 10_000_000
+            t[0] += 1000
+            seq[tok] = (seq[tok] + 1) % (1 << 24)
+            lines.append("arrive %d 69 %d %d %s" % (tok, seq[tok], t[0], tag()))
+        for tok in toks:
+            t[0] += 1000
+            seq[tok] = (seq.get(tok, 5) + 1) % (1 << 24)
+            lines.append("arrive %d 69 %d %d %s" % (tok, seq[tok], t[0], tag()))
+        return victims
+
+    toks = list(range(100, 100 + n))
+    victims = wave(toks)
+    if second_wave:
+        kinds.add("burst-second-wave")
+        wave(sorted(victims))
+    return lines, kinds
+
+
+def burst_cases(seed, thorough):
+    """the burst histories of one run: fixed shapes for every table size of the tier (cancel everything in registration order
+    on udp, take the table down to a quarter in reverse order on tcp) + seeded ones (size, transport, order, how many stay,
+    failing registrations in between, second wave)"""
+    rng = random.Random(seed * 7919 + 11)
+    sizes = BURST_SIZES["thorough" if thorough else "quick"]
+    out = []
+    for n in sizes:
+        out.append(burst_case(rng, "udp", n, 0, "in-order"))
+        if thorough or n in (64, 80):
+            out.append(burst_case(rng, "tcp", n, n // 4, "reverse", fail_every=7))
+    for _ in range(12 if thorough else 3):
+        n = rng.choice(sizes)
+        out.append(burst_case(rng, rng.choice(["udp", "tcp", "udp", "udpbw"]), n, rng.choice([0, 1, n // 8, n // 4 - 1, n // 4, n // 4 + 1, n // 2]),
+                              rng.choice(["in-order", "reverse", "shuffled", "shuffled"]), fail_every=rng.choice([0, 0, 3, 5, 11]),
+                              second_wave=(n <= 130 and rng.random() < 0.4)))
     return out
 
 
